@@ -414,6 +414,14 @@ func (en *Engine) execBinOp(st *State, f *Frame, x *ssa.BinOp) Value {
 			// comparisons of opaque values (e.g. error != nil) are resolved by the call model
 			fail("comparison of opaque value %s", a.What)
 		case StringV:
+			if b, ok := yv.(StringV); ok && a.Const != nil && b.Const != nil {
+				switch x.Op {
+				case token.EQL:
+					return BoolT(*a.Const == *b.Const)
+				case token.NEQ:
+					return BoolT(*a.Const != *b.Const)
+				}
+			}
 			fail("string comparison unsupported")
 		}
 		fail("unsupported comparison on %T", xv)
